@@ -245,12 +245,26 @@ fn judge_case(c: &ZCase) -> Verdict {
             let keys = mask_keys(*m);
             let ps = perms(keys.len());
             let order = &ps[crate::engine::pick(c.orders.get(j).copied().unwrap_or(0), ps.len())];
-            for oi in order {
+            // slow but in time: the first chord's keys arrive spread over 200 ms (deadline 300)
+            // and stay down for another 200 ms - an activation restarts the deadline
+            let slow = c.gap >= 8 && j == 0 && keys.len() >= 2;
+            for (n, oi) in order.iter().enumerate() {
                 sim.press(code_of(CHORD_KEYS[keys[*oi]]));
                 typed_desc.push(format!("d:{}", CHORD_KEYS[keys[*oi]]));
-                sim.tick_n(1 + c.gap as u64 % 8);
+                if slow && n + 1 < order.len() {
+                    let g = 200 / (order.len() as u64 - 1);
+                    sim.tick_n(g);
+                    typed_desc.push(format!("t:{g}"));
+                } else {
+                    sim.tick_n(1 + c.gap as u64 % 8);
+                }
             }
             sim.tick_n(5);
+            if slow {
+                sim.tick_n(200);
+                typed_desc.push("t:200".into());
+                v.classes.push("late-but-within-the-deadline");
+            }
             // shift held by the user is down again after the activation
             if c.shift {
                 let (_, sh) = text_of(&sim.outs);
@@ -371,7 +385,7 @@ impl TypedProp for C20 {
     fn info(&self) -> PropInfo {
         PropInfo {
             level: "exploration",
-            rule: "dictionaries: 1-5 entries over chord keys a-f and `.`: a first chord of 2-3 keys, 0-2 follow-up chords of 1-2 keys, outputs of 1-6 characters (lower / upper case letters, space); a third of the entries extend the previous entry's first chord by one key, half of those also extend its output; smart-space none / add-space-only / full; deadline 300 ms and idle-reactivate 400 ms (both not the defaults). History: mostly a character typed first and zippychord left to re-enable (erasing too much shows); optionally the left or the right shift held; every chord of the chosen entry's path pressed in a generated order with gaps of 1-8 ms, released, 10 ms pause; shift released; then 0-3 taps of keys that are in no chord (x y z ; ,). A separate scenario types single chord keys one after the other (never two at once), another presses a chord's keys more than the deadline apart. Oracle: the OS output is replayed into a text buffer (characters with the shift state, space, backspace); the text left must be the entry's expansion (first character capitalised when shift is held), plus the smart space where configured (removed again by punctuation in full mode), plus the characters typed afterwards; sequential typing and too-slow chords must come out as typed; a held shift must be down again after each activation; nothing is left down. Non-trivial: the dictionary has >= 2 entries or shift is held. Distinct: hash of the case.".into(),
+            rule: "dictionaries: 1-5 entries over chord keys a-f and `.`: a first chord of 2-3 keys, 0-2 follow-up chords of 1-2 keys, outputs of 1-6 characters (lower / upper case letters, space); a third of the entries extend the previous entry's first chord by one key, half of those also extend its output; smart-space none / add-space-only / full; deadline 300 ms and idle-reactivate 400 ms (both not the defaults). History: mostly a character typed first and zippychord left to re-enable (erasing too much shows); optionally the left or the right shift held; every chord of the chosen entry's path pressed in a generated order with gaps of 1-8 ms (or, for the first chord, spread over 200 ms and held for another 200 ms: late but within the deadline, which every activation restarts), released, 10 ms pause; shift released; then 0-3 taps of keys that are in no chord (x y z ; ,). A separate scenario types single chord keys one after the other (never two at once), another presses a chord's keys more than the deadline apart. Oracle: the OS output is replayed into a text buffer (characters with the shift state, space, backspace); the text left must be the entry's expansion (first character capitalised when shift is held), plus the smart space where configured (removed again by punctuation in full mode), plus the characters typed afterwards; sequential typing and too-slow chords must come out as typed; a held shift must be down again after each activation; nothing is left down. Non-trivial: the dictionary has >= 2 entries or shift is held. Distinct: hash of the case.".into(),
             assumptions: vec!["a chord's own line precedes the lines that follow it up (the file format rejects the other order)".into(), "with shift held the first character of the expansion is capitalised (documented behaviour)".into()],
             extra: BTreeMap::new(),
         }
@@ -384,7 +398,7 @@ impl TypedProp for C20 {
             },
             exhaustive: false,
             distinct_by_construction: false,
-            required_classes: vec!["single-chord", "follow-up-chord", "extends-a-shorter-chord", "overlapping-dictionary", "shift-held", "right-shift-held", "smart-space-added", "uppercase-output", "non-chord-typing", "slower-than-the-deadline"],
+            required_classes: vec!["single-chord", "follow-up-chord", "extends-a-shorter-chord", "overlapping-dictionary", "shift-held", "right-shift-held", "smart-space-added", "uppercase-output", "non-chord-typing", "slower-than-the-deadline", "late-but-within-the-deadline"],
             hang_secs: 60,
         }
     }
@@ -404,7 +418,7 @@ impl TypedProp for C20 {
             0u8..3,
             any::<u16>(),
             prop::collection::vec(any::<u16>(), 3..=3),
-            0u8..8,
+            0u8..11,
             any::<bool>(),
             any::<bool>(),
             prop::bool::weighted(0.7),
